@@ -358,9 +358,15 @@ class PDFStream(PDFObject):
             elif f in LITERALS_LZW_DECODE:
                 data = lzwdecode(data)
             elif f in LITERALS_ASCII85_DECODE:
-                data = ascii85decode(data)
+                try:
+                    data = ascii85decode(data)
+                except ValueError as e:
+                    raise PDFValueError(f"Invalid ASCII85 data: {e}")
             elif f in LITERALS_ASCIIHEX_DECODE:
-                data = asciihexdecode(data)
+                try:
+                    data = asciihexdecode(data)
+                except ValueError as e:  # binascii.Error is a ValueError
+                    raise PDFValueError(f"Invalid ASCIIHex data: {e}")
             elif f in LITERALS_RUNLENGTH_DECODE:
                 data = rldecode(data)
             elif f in LITERALS_CCITTFAX_DECODE:
